@@ -99,7 +99,7 @@ def st_case(draw):
 
 class Notifier(Sub):
     name = "chunking"
-    examples = {"quick": 6000, "thorough": 150000}
+    examples = {"quick": 6000, "thorough": 48000}
     shards = {"quick": 8, "thorough": 16}
     rule = RULE
 
